@@ -31,7 +31,7 @@ ASSUMPTIONS = [
     "a 'well-formed blob value' has absent parameters represented as None (not b'') and a SID protection descriptor",
 ]
 
-LEN_CLASSES = [0, 1, 2, 16, 17, 126, 127, 128, 129, 254, 255, 256, 257, 4096, 65534, 65535, 65536, 65537]
+LEN_CLASSES = [0, 1, 2, 16, 17, 126, 127, 128, 129, 254, 255, 256, 257, 4096, 65534, 65535, 65536, 65537, 131072]
 U32 = [0, 1, 2**31, 2**32 - 1]
 
 
